@@ -294,6 +294,8 @@ def promoted_body(body, dbg):
     if "::promoted[" not in dbg: return None
     owner = dbg.split("::promoted[")[0].strip('"')
     idx = int(dbg.split("promoted[")[1].split("]")[0])
+    strip = lambda x: re.sub(r"::<[^<>]*(?:<[^<>]*>[^<>]*)*>", "", x)
     cands = [b for b in body.unit.bodies if b.promoted == idx and b.path == owner]
+    if not cands: cands = [b for b in body.unit.bodies if b.promoted == idx and strip(b.path) == strip(owner)]
     if not cands: cands = [b for b in body.unit.bodies if b.promoted == idx and b.path == body.path]
     return cands[0] if cands else None
